@@ -43,6 +43,7 @@ var (
 	flagSelfTest = flag.Bool("selftest", false, "run only the determinism self-test of the property")
 	flagNoEvid   = flag.Bool("noevidence", false, "do not write the evidence file (used by development scripts)")
 	flagMode     = flag.String("mode", "", "restrict the check to one sub-mode (development)")
+	flagPrewarm  = flag.Bool("prewarm", false, "build the plain and the race worker once to warm the Go build cache, then exit")
 )
 
 var (
@@ -114,6 +115,11 @@ func cleanup() {
 func run() int {
 	if *flagReplay != "" {
 		return replayCmd(*flagReplay)
+	}
+	if *flagPrewarm {
+		prepare(true, true)
+		fmt.Println("simcheck: build cache warmed")
+		return 0
 	}
 	spec := specs[*flagProperty]
 	if spec == nil {
